@@ -230,6 +230,23 @@ TARGETED = [
         {"name": "g", "type": {"type": "int", "logicalType": "no-such-logical-type"}},
         {"name": "h", "type": {"type": "map", "values": ["null", {"type": "int", "logicalType": "local-timestamp-micros"}]}},
         {"name": "i", "type": {"type": "array", "items": {"type": "double", "logicalType": "date"}}}]},
+    # an int-based logical branch ahead of a plain long: a value drawn for the long branch must
+    # not be one the writer files under the narrower branch (where it cannot be read back)
+    {"type": "array", "items": [{"type": "int", "logicalType": "date"}, "long"]},
+    {"type": "record", "name": "DL", "fields": [
+        {"name": "a", "type": {"type": "map", "values": [{"type": "int", "logicalType": "time-millis"}, "long", "null"]}},
+        {"name": "b", "type": ["null", {"type": "int", "logicalType": "date"}, "long"]},
+        {"name": "c", "type": {"type": "array", "items": [{"type": "int", "logicalType": "date"}, "string", "long"]}}]},
+    # fixed types on both sides of sizes an implementation may treat specially
+    {"type": "fixed", "name": "F257", "size": 257},
+    {"type": "record", "name": "Blocks", "fields": [
+        {"name": "a", "type": {"type": "fixed", "name": "F256", "size": 256}},
+        {"name": "b", "type": ["null", {"type": "fixed", "name": "F512", "size": 512}]},
+        {"name": "c", "type": {"type": "array", "items": "F512"}},
+        {"name": "d", "type": {"type": "fixed", "name": "F4096", "size": 4096}},
+        {"name": "e", "type": {"type": "fixed", "name": "D300", "size": 300, "logicalType": "decimal", "precision": 700, "scale": 2}},
+        {"name": "f", "type": {"type": "map", "values": ["F4096", "string"]}},
+        {"name": "g", "type": {"type": "fixed", "name": "F65537", "size": 65537}}]},
 ]
 
 
